@@ -25,13 +25,16 @@ type world struct {
 	queues               map[int64]bool
 	uid                  int64
 	ack                  map[int64]bool // pods whose successful bind / eviction still has to show up as a pod event
+	gone                 map[int64]bool // pods deleted on the API server whose delete notification is still owed
+	resync               []int64        // pods with a failed bind / eviction since the last resync drain
 	ops                  []opT
 	nPods, nNodes, nJobs int64
+	pgChurn              bool
 }
 
 func newWorld(r *vh.Rng) *world {
 	return &world{r: r, pods: map[int64]*cachectl.PodSpec{}, nodes: map[int64]*sched.NodeSpec{}, pgs: map[int64]*cachectl.PGSpec{},
-		queues: map[int64]bool{}, ack: map[int64]bool{}, nPods: int64(r.Range(2, 6)), nNodes: int64(r.Range(1, 3)), nJobs: int64(r.Range(1, 3))}
+		queues: map[int64]bool{}, ack: map[int64]bool{}, gone: map[int64]bool{}, nPods: int64(r.Range(2, 6)), nNodes: int64(r.Range(1, 3)), nJobs: int64(r.Range(1, 3))}
 }
 
 func (w *world) emit(o opT) { w.ops = append(w.ops, o) }
@@ -89,9 +92,19 @@ func (w *world) advancePod(p *cachectl.PodSpec) {
 func (w *world) step(cycle bool, nodeChurn int) {
 	r := w.r
 	k := r.Intn(100)
+	if w.pgChurn && r.Chance(1, 2) {
+		k = vh.Pick(r, []int{70, 70, 80, 80, 80, 44, 91})
+	}
 	switch {
 	case k < 40: // pod add / update
 		id := int64(r.Range(1, int(w.nPods)))
+		if w.gone[id] { // the only notification a deleted object still gets is its delete
+			w.emit(opT{Code: 2, A: []int64{id}})
+			delete(w.pods, id)
+			delete(w.ack, id)
+			delete(w.gone, id)
+			return
+		}
 		p, ok := w.pods[id]
 		if !ok {
 			p = w.newPod(id)
@@ -105,6 +118,7 @@ func (w *world) step(cycle bool, nodeChurn int) {
 		w.emit(opT{Code: 2, A: []int64{id}})
 		delete(w.pods, id)
 		delete(w.ack, id)
+		delete(w.gone, id)
 	case k < 60: // node add / update
 		id := int64(r.Range(1, int(w.nNodes)))
 		n := &sched.NodeSpec{ID: id, Has: true, CPU: vh.Pick(r, []int64{1000, 4000, 8000}), Mem: vh.Pick(r, []int64{1 << 28, 1 << 30, 1 << 32}),
@@ -145,6 +159,7 @@ func (w *world) step(cycle bool, nodeChurn int) {
 		w.emit(opT{Code: 9})
 	case k < 95:
 		w.emit(opT{Code: 10})
+		w.resync = nil
 	default:
 		if !cycle {
 			w.emit(opT{Code: int64(9 + r.Intn(2))})
@@ -173,10 +188,17 @@ func (w *world) cycleOp() {
 			job = p.Job
 		}
 		node := int64(r.Range(1, int(w.nNodes)))
-		ok := !r.Chance(1, 3)
-		w.emit(opT{Code: 11, A: []int64{job, id, node}, OK: ok})
+		fault := int64(1)
+		if r.Chance(1, 2) {
+			fault = vh.Pick(r, []int64{0, 2, 2, 3})
+		}
+		ok := fault == 1
+		w.emit(opT{Code: 11, A: []int64{job, id, node}, OK: ok, F: fault})
+		if !ok {
+			w.failed(id)
+		}
 		// a successful API bind sets spec.nodeName; the notification comes later
-		if p, has := w.pods[id]; has && ok && p.Job == job && p.Node == 0 {
+		if p, has := w.pods[id]; has && ok && p.Job == job && p.Node == 0 && !w.gone[id] {
 			p.Node = node
 			w.ack[id] = true
 		}
@@ -194,15 +216,50 @@ func (w *world) cycleOp() {
 		}
 		ok := !r.Chance(1, 3)
 		w.emit(opT{Code: 12, A: []int64{job, id}, OK: ok})
-		if p, has := w.pods[id]; has && ok && p.Job == job {
+		if !ok {
+			w.failed(id)
+		}
+		if p, has := w.pods[id]; has && ok && p.Job == job && !w.gone[id] {
 			p.Deleting = true
 			w.ack[id] = true
 		}
 	}
 }
 
+// after a failed bind / eviction the task waits for a resync; sometimes the pod
+// disappears from the API server first (the informer is behind), sometimes the
+// resync runs at once
+func (w *world) failed(id int64) {
+	r := w.r
+	w.resync = append(w.resync, id)
+	switch r.Intn(6) {
+	case 0, 1:
+		if _, ok := w.pods[id]; ok && !w.gone[id] {
+			w.emit(opT{Code: 14, A: []int64{id}})
+			w.gone[id] = true
+			delete(w.ack, id)
+			if r.Chance(2, 3) {
+				w.emit(opT{Code: 10})
+				w.resync = nil
+			}
+		}
+	case 2:
+		w.emit(opT{Code: 10})
+		w.resync = nil
+	}
+}
+
 // closeHistory delivers the notifications still owed and drains the repair queues
 func (w *world) closeHistory() {
+	if w.r.Chance(1, 2) { // resync while the deleted objects are still in the informer store
+		w.emit(opT{Code: 10})
+	}
+	for _, id := range sched.SortedIDs(w.gone, func(k int64) int64 { return k }) {
+		w.emit(opT{Code: 2, A: []int64{id}})
+		delete(w.pods, id)
+		delete(w.ack, id)
+	}
+	w.gone = map[int64]bool{}
 	for _, id := range sched.SortedIDs(w.ack, func(k int64) int64 { return k }) {
 		if p, ok := w.pods[id]; ok {
 			w.podEvent(p)
@@ -238,11 +295,14 @@ func describe(ops []opT) any {
 		case 10:
 			out = append(out, "drain-resync")
 		case 11:
-			out = append(out, fmt.Sprintf("bind j%d t%d n%d ok=%v", o.A[0], o.A[1], o.A[2], o.OK))
+			out = append(out, fmt.Sprintf("bind j%d t%d n%d outcome=%s", o.A[0], o.A[1], o.A[2],
+				[]string{"bind-fails", "bound", "prebind-fails", "prebind-and-status-update-fail"}[o.F]))
 		case 12:
 			out = append(out, fmt.Sprintf("evict j%d t%d ok=%v", o.A[0], o.A[1], o.OK))
 		case 13:
 			out = append(out, "snapshot+mutate")
+		case 14:
+			out = append(out, fmt.Sprintf("api-delete t%d (notification later)", o.A[0]))
 		}
 	}
 	return out
@@ -280,15 +340,43 @@ func gen(rng *vh.Rng, n int, emit func(id string, sel int, in []int64, kind stri
 	emit("f4-node-readd", 1, encCase(f4), "fixed", true, describe(f4))
 	emit("f4-node-readd/build", 2, encCase(f4), "fixed", true, describe(f4))
 
+	// a pre-bind failure (status update succeeding) must be repaired by the resync it queues
+	pb := []opT{
+		{Code: 3, Node: sched.NodeSpec{ID: 1, Has: true, CPU: 4000, Mem: 1 << 30, Pods: 10}},
+		{Code: 5, PG: cachectl.PGSpec{ID: 2, UID: 1, Queue: 1, Min: 1}},
+		{Code: 1, Pod: cachectl.PodSpec{ID: 1, Job: 2, Phase: 1, Role: 1, CPU: 1000, Mem: 1 << 20}},
+		{Code: 11, A: []int64{2, 1, 1}, F: 2},
+		{Code: 1, Pod: cachectl.PodSpec{ID: 1, Job: 2, Phase: 1, Role: 1, CPU: 1000, Mem: 1 << 20}},
+		{Code: 10}, {Code: 9},
+	}
+	emit("prebind-fails", 1, encCase(pb), "fixed", true, describe(pb))
+	// a failed bind whose pod is gone from the API server when the resync runs
+	gonePod := []opT{
+		{Code: 3, Node: sched.NodeSpec{ID: 1, Has: true, CPU: 4000, Mem: 1 << 30, Pods: 10}},
+		{Code: 5, PG: cachectl.PGSpec{ID: 2, UID: 1, Queue: 1, Min: 1}},
+		{Code: 1, Pod: cachectl.PodSpec{ID: 1, Job: 2, Phase: 1, Role: 1, CPU: 1000, Mem: 1 << 20}},
+		{Code: 11, A: []int64{2, 1, 1}, F: 0},
+		{Code: 14, A: []int64{1}},
+		{Code: 10},
+		{Code: 2, A: []int64{1}},
+		{Code: 10}, {Code: 9},
+	}
+	emit("resync-finds-no-pod", 1, encCase(gonePod), "fixed", true, describe(gonePod))
+
 	for i := 0; i < n; i++ {
 		r := rng.Fork()
 		w := newWorld(r)
 		kind := "events"
 		cycle, churn := false, 4
 		switch {
-		case i%10 < 4:
-		case i%10 < 7:
+		case i%10 < 3:
+		case i%10 < 5:
 			kind, churn = "node-churn", 14
+		case i%10 < 6:
+			// one job, PodGroup deleted and re-created (new uid) around pod adds / deletes, few drains:
+			// every branch of processCleanupJob (job gone, PgUID mismatch, not terminated => retry)
+			kind = "pg-churn"
+			w.nJobs, w.nNodes, w.pgChurn = 1, 1, true
 		default:
 			kind, cycle = "cycle", true
 		}
